@@ -74,18 +74,27 @@ def okAt (pre : List Op) (c : HOp) (obs : List Req) : Bool :=
   else if c.isEnable then !c.panicked && chunksMatch ((latest pre).length + 1) (latest pre) obs
   else !c.panicked && obs.isEmpty
 
-/-- depth-first search for a linearisation: `rest` are the operations not yet placed (with index) -/
+def History.submission (h : History) (tag : Req) : Option (Nat × HOp) :=
+  (indexed h.ops).find? fun p => !p.2.isEnable && p.2.reqs.contains tag
+
+def History.groupOf (h : History) (tag : Req) : Option Group := (h.submission tag).map (·.2.g)
+
+/-- operation `d` wrote to some group before operation `c` wrote to the same group -/
+def History.wroteBefore (h : History) (d c : Nat) : Bool :=
+  h.writes.any fun wd => wd.op == d &&
+    h.writes.any fun wc => wc.op == c && wd.t < wc.t && h.groupOf wd.tag == h.groupOf wc.tag
+
+/-- depth-first search for a linearisation: `rest` are the operations not yet placed (with index).
+The order must respect real time (`d.ret < c.call` puts `d` first) and, per group, the order in which
+the writes reached the client (the status that is written last is the one that survives). -/
 def linearise (h : History) : Nat → List Op → List (Nat × HOp) → Bool
   | _, _, [] => true
   | 0, _, _ :: _ => false
   | fuel + 1, pre, rest =>
     rest.any fun c =>
-      rest.all (fun d => d.1 == c.1 || !(d.2.ret < c.2.call)) &&
+      rest.all (fun d => d.1 == c.1 || !(d.2.ret < c.2.call || h.wroteBefore d.1 c.1)) &&
       okAt pre c.2 (h.obsOf c.1) &&
       linearise h fuel (pre ++ [c.2.toOp]) (rest.filter (·.1 != c.1))
-
-def History.submission (h : History) (tag : Req) : Option (Nat × HOp) :=
-  (indexed h.ops).find? fun p => !p.2.isEnable && p.2.reqs.contains tag
 
 /-- the first failing clause, or none -/
 def judge (h : History) : Option String :=
@@ -104,13 +113,18 @@ def judge (h : History) : Option String :=
   else if h.writes.any (fun w => match h.ops[w.op]? with
       | some o => !(o.call < w.t && w.t < o.ret) | none => true) then some "write_outside_call"
   else if !nodupB (h.writes.map (·.tag)) then some "duplicate_write"
-  else if !nodupB (squeeze (h.writes.map (·.op))) then some "interleaved_writes"
+  else if upd.any (fun s => !nodupB (squeeze
+      ((h.writes.filter (fun w => h.groupOf w.tag == some s.2.g)).map (·.op)))) then
+    some "interleaved_writes"
+  else if h.writes.any (fun wa => h.writes.any (fun wb => wb.t < wa.t &&
+      match h.submission wa.tag, h.submission wb.tag with
+      | some a, some b => a.2.g == b.2.g && a.2.ret < b.2.call
+      | _, _ => false)) then some "older_overwrites_newer"
   else
     match ens with
     | [] => if h.writes.isEmpty then none else some "write_before_leader"
     | [(ei, e)] =>
       let flushed := h.obsOf ei
-      let groupOf (tag : Req) : Option Group := (h.submission tag).map (·.2.g)
       if upd.any (fun s => e.ret < s.2.call && h.obsOf s.1 != s.2.reqs) then some "not_immediate"
       else if flushed.any (fun tag => match h.submission tag with
           | none => true
@@ -118,7 +132,7 @@ def judge (h : History) : Option String :=
                         f.2.ret < s'.2.call && s'.2.ret < e.call)) then some "stale_flush"
       else if upd.any (fun s => s.2.ret < e.call &&
           upd.all (fun s' => s'.1 == s.1 || s'.2.g != s.2.g || s'.2.ret < s.2.call || e.ret < s'.2.call) &&
-          flushed.filter (fun tag => groupOf tag == some s.2.g) != s.2.reqs) then some "flush_not_latest"
+          flushed.filter (fun tag => h.groupOf tag == some s.2.g) != s.2.reqs) then some "flush_not_latest"
       else if !linearise h (h.ops.length + 1) [] ops then some "no_linearisation"
       else none
     | _ => some "bad-history"
